@@ -40,7 +40,7 @@ def run(chk: harness.Check):
         "AisleConf::ingredients_info. D2: on the MIR of aisle::parse, each HashSet::insert into used_categories / used_names is dominated by a "
         "HashSet::get of the same key expression in the same set, is unreachable from its found outcome (which builds the Duplicate* error), and the "
         "names/categories that are stored have the same trimming in their lineage as the keys that were checked. D3: calc_span returns "
-        "Span::new(offset_from(s.as_ptr(), input.as_ptr()), that + s.len()). D4: ingredients_info builds every IngredientInfo with common_name = names.first() of the iterated line, category = the enclosing category's name, and inserts it under the iterated name. D6: the comment marker `//` is searched from the left. D5: the format templates of aisle::write (decoded from MIR) put exactly the characters around category names and between names that aisle::parse strips and splits on, and end every line with a line feed. Necessary conditions; the write∘parse round trip itself is not decided.")
+        "Span::new(offset_from(s.as_ptr(), input.as_ptr()), that + s.len()). D4: ingredients_info builds every IngredientInfo with common_name = names.first() of the iterated line, category = the enclosing category's name, and inserts it under the iterated name. D6: the comment marker `//` is searched from the left. D5: the format templates of aisle::write (decoded from MIR) put exactly the characters around category names and between names that aisle::parse strips and splits on, and end every line with a line feed. D7: no path builds an Ingredient without the not-empty outcome of an emptiness test taken after the comment was cut off. Necessary conditions; the write∘parse round trip itself is not decided.")
     chk.trusted = ["tables/panics.toml, narrow_arith.toml, progress.toml", "HashSet::get/insert semantics"]
     ents = []
     for s in ("cooklang::aisle::parse", "cooklang::aisle::write", "cooklang::aisle::AisleConf::ingredients_info", "cooklang::aisle::AisleConf::reverse"):
@@ -61,6 +61,42 @@ def run(chk: harness.Check):
     d4_lookup(chk, F)
     d5_writer_reader_tokens(chk, F)
     d6_comment(chk, F)
+    d7_blank_after_comment(chk, F)
+
+
+def d7_blank_after_comment(chk, F):
+    """'comments and blank lines are ignored': an ingredient line is only read from a line that is non-empty AFTER the comment was cut
+    off and the rest trimmed — no path reaches the construction of an aisle Ingredient without the not-empty outcome of an `is_empty`
+    test whose subject derives from the comment-stripped line (a test of the raw line does not count: `// note` is not blank)."""
+    from cfgq import path_without_success
+    R = "C11.D7-blank-after-comment"
+    p = F.funcs.get("cooklang::aisle::parse")
+    if p is None:
+        chk.fail("anchor-missing", "aisle::parse", "", "anchor-missing: aisle::parse not found")
+        return
+    markers = {b for b, t in p.calls() if any((a.get("const") or {}).get("str") == "//" for a in t.get("args", []))}
+    from cfgq import must_pass
+    heads = [t.get("target") for b, t in p.calls() if (callee_key(t) or "").endswith("Iterator>::next") and "Lines" in (callee_key(t) or "")]
+    heads = [h for h in heads if h is not None]
+    tests = {}
+    for b, t in p.calls():
+        if (callee_key(t) or "").endswith("<impl str>::is_empty") and not t["dest"]["p"]:
+            e = arg_expr(p, t, 0)
+            # the subject mentions the stripped line, and within one iteration the test comes after the comment was cut off
+            # (the line variable is re-assigned in place, so lineage alone cannot tell a test of the raw line from one of the rest)
+            if any(n[0] == "call" and n[3] in markers for n in walk(e)) and heads and must_pass(p, heads, list(markers), [b]):
+                tests[t["dest"]["l"]] = False
+    chk.floor(R, "line loop of aisle::parse", len(heads), 1, f"{p.file}:{p.line}")
+    sites = [(i, s) for ff, i, s, d in aggregates(F, p.key, "aisle::Ingredient") if ff is p]
+    chk.floor(R, "Ingredient constructions in aisle::parse", len(sites), 1, f"{p.file}:{p.line}")
+    chk.floor(R, "emptiness tests of the comment-stripped line", len(tests), 1, f"{p.file}:{p.line}")
+    for i, s in sites:
+        w = path_without_success(p, i, tests) if tests else [i]
+        lines = sorted({p.blocks[x]["term"].get("line") for x in (w or []) if p.blocks[x]["term"].get("line")})
+        chk.expect(w is None, R, "parse|ingredient line", f"{p.file}:{s.get('line')}",
+                   f"an ingredient line can be read from a line that was not tested to be non-empty after its comment was removed (path through lines {lines[-8:]}): "
+                   "a comment-only line becomes an ingredient with an empty name",
+                   sample=f"{p.file}:{s.get('line')}: Ingredient built only under !stripped_line.is_empty()")
 
 
 def d6_comment(chk, F):
